@@ -26,10 +26,8 @@ THEOREMS = [
     'Sbepp.Properties.C14.view_too_small_rejects',
     'Sbepp.Properties.C14.strlen_spec',
     'Sbepp.Properties.C14.strlen_r_spec',
-    # constant-evaluation branch of strlen(): full statement refuted, partial proved
-    'Sbepp.Properties.C14.strlen_ce_full_false',
-    'Sbepp.Properties.C14.strlen_ce_partial',
-    'Sbepp.Properties.C14.strlen_ce_overrun',
+    # constant-evaluation branch of strlen()
+    'Sbepp.Properties.C14.strlen_ce_spec',
     'Sbepp.Properties.C14.strlen_variants_agree',
     # the executable specification means what the property says
     'Sbepp.Spec.StaticArray.strlen_isStrlen',
